@@ -24,6 +24,15 @@ type row struct {
 	why   string
 	multi bool // several call sites allowed (each checked); default: exactly one site
 	loop  bool // the call sits in a loop: skip the at-most-once check
+	// alts: the same hand-off one level further down (the thin wrapper the row names was written out: Engine.Send(p, m)
+	// is send(p, m, nil)); tried when fn has no call of callee
+	alts []rowAlt
+}
+
+type rowAlt struct {
+	callee Ev
+	name   string
+	args   []string
 }
 
 func matchArg(want, got string) bool {
@@ -59,6 +68,16 @@ func (w *World) checkRow(r *Report, rw row) bool {
 				if ci, ok := in.(ssa.CallInstruction); ok && rw.callee.M(in) {
 					sites = append(sites, ci)
 				}
+			}
+		}
+	}
+	if len(sites) == 0 {
+		for _, alt := range rw.alts {
+			if ss := w.callsIn(rw.fn, alt.callee); len(ss) > 0 {
+				sites = ss
+				rw.callee, rw.args = alt.callee, alt.args
+				what = fmt.Sprintf("%s calls %s(%s) synchronously, once", fname(rw.fn), alt.name, strings.Join(alt.args, ", "))
+				break
 			}
 		}
 	}
